@@ -28,7 +28,39 @@ func (c *fctx) callStmt(o *out, ind int, call *ast.CallExpr, lhs []ast.Expr, isD
 			return
 		}
 	}
+	if id, ok := call.Fun.(*ast.Ident); ok && lhs == nil {
+		if _, isB := c.info.Uses[id].(*types.Builtin); isB && id.Name == "panic" {
+			o.emit(ind, "throw (Err.panic %s)", c.site(call.Pos()))
+			return
+		}
+	}
 	f := calleeFunc(c.info, call)
+	if isIgnorable(f) {
+		return
+	}
+	if op, ok := effectOf(f); ok && op != "ArpVerify" {
+		s, res := c.effectCall(op, f, call)
+		if lhs == nil { // result (if any) ignored
+			o.emit(ind, "discard (%s)", strings.TrimSuffix(strings.TrimPrefix(s, "(← "), ")"))
+			return
+		}
+		tmp := c.fresh("__e")
+		o.emit(ind, "let %s := %s", tmp, s)
+		if lhs != nil {
+			if len(lhs) != res.Len() {
+				bad("assignment arity at %s", c.site(call.Pos()))
+			}
+			for i, l := range lhs {
+				c.define(o, ind, l, proj(tmp, i, res.Len()), isDefine)
+			}
+		}
+		return
+	}
+	if f == nil && lhs == nil { // a call of a function value or of sx.arpVerify(..)(..) as a statement
+		cs := c.call(call)
+		o.emit(ind, "discard (%s)", strings.TrimSuffix(strings.TrimPrefix(cs, "(← "), ")"))
+		return
+	}
 	if f != nil && lhs == nil {
 		switch f.FullName() {
 		case "(encoding/binary.bigEndian).PutUint16", "(encoding/binary.bigEndian).PutUint32":
@@ -71,9 +103,16 @@ func (c *fctx) callStmt(o *out, ind int, call *ast.CallExpr, lhs []ast.Expr, isD
 	nres := ci.results.Len()
 	total := nres + len(wbs)
 	s := "Gen." + ci.lean + " " + strings.Join(args, " ")
+	if ci.effectful {
+		s = "Gen." + ci.lean + " E " + strings.Join(args, " ")
+		c.fi.effectful = true
+	}
+	for _, or := range ci.oracles {
+		s += " " + c.oracle(or.typ)
+	}
 	if total == 0 {
 		if ci.mayFail {
-			o.emit(ind, "let _ ← %s", s)
+			o.emit(ind, "%s", strings.TrimSpace(s))
 		}
 		return
 	}
